@@ -83,7 +83,9 @@ def gen_energy(ctx: Ctx, kind: str) -> float:
     if kind == "typical":
         return float(rng.choice([20e3, 30e3, 60e3, 80e3, 100e3, 120e3, 200e3, 300e3, 1e6]))
     if kind == "nonpositive":
-        return rng.choice([0.0, -0.0, -1.0, -5e-324, -1e-300, -rng.uniform(0, 1e6), -1e300, float("-inf")])
+        # includes energies below -2 m c^2 / e (about -1.022 MeV), where the radicand E (E + 2mc^2/e) is positive again
+        return rng.choice([0.0, -0.0, -1.0, -5e-324, -1e-300, -rng.uniform(0, 1e6), -1e300, float("-inf"),
+                           -1.03e6, -rng.uniform(1.022e6, 1e8), -10.0 ** rng.uniform(6, 12)])
     if kind == "extreme":
         return rng.choice([5e-324, 1e-300, 1e-30, 1e-3, 1e12, 1e100, 1e300, float("inf"), float("nan")])
     raise ValueError(kind)
@@ -252,7 +254,7 @@ class C24(Property):
             cases.append(dict(check="closed-forms", E=fx(gen_energy(ctx, ctx.rng.choice(["random", "typical"])))))
         for _ in range(ctx.n(150, 4000)):
             cases.append(dict(check="monotone", E=fx(gen_energy(ctx, "random")), delta=fx(10.0 ** ctx.rng.uniform(-9, 0.5))))
-        for E in [0.0, -0.0, -1.0, -5e-324, -1e-300, -1e300, float("-inf")]:
+        for E in [0.0, -0.0, -1.0, -5e-324, -1e-300, -1e300, float("-inf"), -1.0219e6, -1.0220e6, -1.03e6, -2e6, -1e7, -1e9]:
             cases.append(dict(check="rejected", E=fx(E)))
         for _ in range(ctx.n(30, 500)):
             cases.append(dict(check="rejected", E=fx(-math.exp(ctx.rng.uniform(-20, 20)))))
